@@ -33,6 +33,11 @@ def cases(tier, seed):
         for n in (1, 255, 300):
             yield {"k": "write", "files": [dict(C.spec("NOADDR", ftype=ft, dtype=dt, load=0, exec_=0, n=n), noaddr=True)]}
             yield {"k": "write", "files": [c06.ALPHA[0], dict(C.spec("NOADDR", ftype=ft, dtype=dt, load=0, exec_=0, n=n), noaddr=True), c06.ALPHA[1]]}
+    # appending to a tape from elsewhere that the tool can list but that is not well formed (a wrong checksum byte, noise after
+    # the last block or between files, minimal leaders): what the tool WRITES must be well formed all the same
+    for base in ("badck", "noise.end", "noise.between", "lead1", "gaps"):
+        for i in (0, 1, 6):
+            yield {"k": "foreign", "base": base, "files": [APPEND_FILES[i]]}
     for nm in WIDE_NAMES:
         for n in (0, 5, 300):
             yield {"k": "wname", "files": [C.spec(nm, n=n), C.spec("NEXT", n=3)]}
@@ -44,6 +49,27 @@ def cases(tier, seed):
         yield {"k": "append", "files": [APPEND_FILES[i] for i in tup]}
 
 
+FOREIGN_OLD = [C.spec("OLD1", n=300, pat="ramp", load=0x1000, exec_=0x1000), C.spec("OLD2", ftype=0, dtype=0xFF, load=0, exec_=0, n=20, pat="55")]
+
+
+def foreign_tape(base):
+    files = [dict(name=s["name"], type=s["type"], dtype=s["dtype"], load=s["load"], exec=s["exec"], data=C.pattern(s["n"], s["pat"])) for s in FOREIGN_OLD]
+    if base == "lead1":
+        return tape.write(files, 1, 1, None, 0)
+    if base == "gaps":
+        return tape.write(files, 128, 128, 5, 128)
+    b = bytearray(tape.write(files))
+    if base == "badck":
+        i = b.index(b"\x55\x3c\x01")
+        b[i + 4 + b[i + 3]] ^= 0xFF
+    elif base == "noise.end":
+        b += b"\x13\x37\x42"
+    elif base == "noise.between":
+        j = b.index(b"\x55\x3c\xff\x00\xff\x55") + 6
+        b[j:j] = b"\x00\x13\x00"
+    return bytes(b)
+
+
 def build_by_append(case):
     """each file is added by its own open / add / save(append) cycle on a host file, as --append does"""
     import os
@@ -51,6 +77,8 @@ def build_by_append(case):
     from cocoasm.virtualfiles.source_file import SourceFile, SourceFileType
     with common.scratch_dir(chdir=False) as d:
         path = os.path.join(d, "t.cas")
+        if case["k"] == "foreign":
+            open(path, "wb").write(foreign_tape(case["base"]))
         for s in case["files"]:
             vf = VirtualFile(SourceFile(path, file_type=SourceFileType.BINARY), VirtualFileType.CASSETTE)
             vf.open_virtual_file()
@@ -69,10 +97,12 @@ def check_case(case):
 
     if case["k"] == "append":
         cell = "append|{}".format(",".join(s["name"] for s in case["files"]))
+    if case["k"] == "foreign":
+        cell = "append.foreign|{}|{}".format(case["base"], case["files"][0]["name"])
     if case["k"] == "wname":
         cell = "wname|{}|{}".format(case["files"][0]["name"].encode("unicode_escape").decode(), case["files"][0]["n"])
     try:
-        img = build_by_append(case) if case["k"] == "append" else c06.build_image(case)
+        img = build_by_append(case) if case["k"] in ("append", "foreign") else c06.build_image(case)
     except Exception as e:
         if case["k"] == "wname":        # refusing such a name writes no image: nothing to judge
             res["state"] = "wname-refused"
@@ -92,7 +122,7 @@ def check_case(case):
         bad("malformed stream: " + kind, "well-formed tape stream", msg)
         files = None
     if files is not None:
-        want = case["files"]
+        want = case["files"] if case["k"] != "foreign" else FOREIGN_OLD + case["files"]
         if len(files) != len(want):
             bad("stream holds {} files for {} written".format(len(files), len(want)), len(want), len(files))
         else:
@@ -121,5 +151,5 @@ def describe(tier):
     d["oracle"] = ("strict parse of the whole buffer: per file leader, name-file block with exactly 15 payload bytes (name[8], type, data type, "
                    "gap flag, two addresses), leader, data blocks of 1..255 bytes whose payloads concatenate to the data, EOF block; every block "
                    "$55 $3C type len payload cksum $55 with cksum = (type+len+sum) mod 256; only $00/$55 between blocks")
-    d["alphabet"] = d["alphabet"].split("; read side")[0] + "; images built by per-file open/add/save(append) cycles; 7 names that are not printable ASCII (the writer may refuse them); files of every type without addresses"
+    d["alphabet"] = d["alphabet"].split("; read side")[0] + "; images built by per-file open/add/save(append) cycles; 7 names that are not printable ASCII (the writer may refuse them); files of every type without addresses; appending to 5 listable but malformed foreign tapes"
     return d
